@@ -122,7 +122,7 @@ func TestC04SM(t *testing.T) {
 		Name: "TestC04SM", Prop: "C04",
 		Rule: "history biased to canaries: canary strategy always present (replicas int or percent), template edits incl. a second edit while a canary runs and eligibility-changing templates, node churn, pause/unpause/valid annotations, every interleaving of the EDS reconcile with active/canary/leftover syncs (each also on store forks); monitors canary-confinement, canary-list-growth, canary-label; non-trivial = canary-role syncs >= 3, >= 2 different replica sets synced and >= 1 pod created while status.canary was set; distinct by action trace",
 		Cfg: WorldCfg{MinNodes: 2, MaxNodes: 6, Letters: "ABCDEFG", Strategy: gen.StrategyOpts{Canary: 2}, Forks: 2, Affinity: 2, Warmup: 5, StartEdit: 2,
-			Monitors: mon.Of("canary-confinement", "canary-list-growth", "canary-label", "no-panic"),
+			Monitors: mon.Of("canary-confinement", "canary-list-growth", "canary-label", "canary-verdict", "no-panic"),
 			Weights:  weights(defaultWeights(), map[string]int{"edit-template": 4, "round": 6, "rec-ers": 12, "canary-valid": 1, "pod-dup": 1})},
 		MinSteps: 15, MaxSteps: 70,
 		NonTrivial: func(w *World) bool { return w.CanarySyncs >= 3 && len(w.RSSeen) >= 2 && w.CanaryCreates >= 1 },
@@ -136,7 +136,7 @@ func TestC08SM(t *testing.T) {
 		Name: "TestC08SM", Prop: "C08",
 		Rule: "history in which the four annotations (rolling-update-paused, rollout-frozen, canary-paused, canary-unpaused) are set, flipped and removed (values true/false/absent/garbage) over rollouts in progress (outdated, missing, unavailable pods, joining nodes, with or without canary); monitors paused-frozen, promotion-rule and the status function (state/reason); then the annotations are removed and the history must converge (resume); non-trivial = an annotation was true during a sync that read work to do (outdated or missing pods); distinct by action trace",
 		Cfg: WorldCfg{MinNodes: 2, MaxNodes: 6, Letters: "ABC", Strategy: gen.StrategyOpts{Canary: 1}, Forks: 1, Affinity: 2, PlainNodes: true, Warmup: 5, StartEdit: 1,
-			Monitors: mon.Of("paused-frozen", "promotion-rule", "status-function", "no-panic"),
+			Monitors: mon.Of("paused-frozen", "promotion-rule", "status-function", "canary-verdict", "no-panic"),
 			Weights:  weights(defaultWeights(), map[string]int{"annotation": 8, "edit-template": 4, "node-add": 3, "round": 6, "pod-unknown": 0, "node-taint": 0, "node-relabel": 0})},
 		MinSteps: 15, MaxSteps: 60,
 		After:    func(w *World) { w.stabilise("resume") },
